@@ -22,6 +22,7 @@ LineOK ==
        /\ Ev.transform.log = tl[1] /\ Ev.transform.failed = tl[2]
        /\ Ev.transform.result = (IF tl[2] THEN "" ELSE RenderT(t, 1))
        /\ (Evaluable(t) => Ev.eval.log = el[1] /\ Ev.eval.failed = el[2])
+       /\ (Evaluable(t) => Ev.eval2 = SecondEval(t))
        /\ LET a1 == ParseApiLog(t, f, 0) a2 == ParseApiLog(t, 0, f) IN
           /\ Ev.api.tlog1 = a1[1] /\ Ev.api.clog1 = a1[2] /\ Ev.api.failed1 = a1[3]
           /\ Ev.api.tlog2 = a2[1] /\ Ev.api.clog2 = a2[2] /\ Ev.api.failed2 = a2[3]
